@@ -160,3 +160,12 @@ Theorem C14_source_idevice2_hess : forall n pl ph bnd (s : list R), IDevice2_hes
 Proof. exact gen_idevice2_hess. Qed.
 Theorem C14_source_gdevice_hess : forall n g (s : list R), GDevice_hess (A:=R) n g s = gdev_hess g s.
 Proof. exact gen_gdevice_hess. Qed.
+
+(* ---- the two instances agree on the reported Hessian (Proofs/HomHess.v): what the correspondence evaluates on exact rationals maps
+   through Q2R to the Hessians the theorems above speak about; every atomic kind except the ADevice function AST; integer exponents. ---- *)
+From Coq Require Import QArith Qreals.
+From DK Require Import NumQ.
+From DK.Proofs Require Import Hom HomLeaf HomHess.
+Theorem C14_instances_agree_leaf_hess : forall (L : leafdev Q) (s : list Q), exec_kind (ld_kind L) (List.length s) ->
+  List.map (List.map Q2R) (leaf_hess L s) = leaf_hess (mleaf L) (List.map Q2R s).
+Proof. exact instances_agree_leaf_hess. Qed.
